@@ -101,13 +101,11 @@ theorem handleResults_stopping_kinds (cfg : Cfg) (st : St) (b : Batch) (rs : Lis
   split
   · exact good
   · dsimp only
-    have : (checkRetry cfg { st with outstanding := (deliverMany st.outstanding
-        ((rs.filter (·.error = 0)).map (fun r => (b.sidsOf r.tp, Outcome.ok r)))).1 }
-        { b with live := b.live.filter (fun tp => !(rs.filter (·.error = 0)).any (·.tp = tp)) }
-        (fs ++ (rs.filter (·.error ≠ 0)).map (fun r => (⟨r.tp, .broker r.error, false⟩ : FailedP)))).2.1 = [] := by
-      simp [checkRetry, hs]
-    rw [this, List.append_nil]
-    exact good
+    have : ∀ (s : St) (b' : Batch) (f : List FailedP), s.stopping = true → (checkRetry cfg s b' f).2.1 = [] := by
+      intro s b' f h; simp [checkRetry, h]
+    rw [this]
+    · rw [List.append_nil]; exact good
+    · exact hs
 
 theorem handle_stopping_kinds (cfg : Cfg) (st : St) (b : Batch) (r : ProdRes) (hs : st.stopping = true)
     (hl : legitCancel (some r) = true) : cancelKinds (handleSendResponse cfg st b r).2.1 := by
@@ -217,18 +215,35 @@ theorem stopStep_of (pre : Snap) (t : Track) (e : Ev) (obs : List Ob) (post : Sn
     (h1 : (trackEv pre t e).stopped = true → ∀ o ∈ obs, isTransmission o = false)
     (h2 : ∀ w pout m, e = .stop w pout m → effective t e = true →
       post.outstanding = [] ∧ post.looper = false ∧ post.queue = [] ∧
-      (∀ x ∈ pre.outstanding, x ∈ firedSids obs) ∧ (legitCancel pout = true → cancelKinds obs)) :
+      (∀ x ∈ pre.outstanding, x ∈ firedSids obs) ∧ (legitCancel pout = true → cancelKinds obs))
+    (h3 : (trackEv pre t e).stopped = true → post.outstanding = [] ∧ post.queue = [])
+    (h4 : ∀ sid topic key msgs, e = .send sid topic key msgs → t.stopped = true → sid = t.nextSid →
+      msgs.isEmpty = false → obs = [.fire sid (.err (.acancelled (some false)))]) :
     stopStep pre t ⟨e, obs, post⟩ = true := by
   unfold stopStep
-  rw [Bool.and_eq_true]
-  constructor
+  rw [Bool.and_eq_true, Bool.and_eq_true]
+  refine ⟨⟨?_, ?_⟩, ?_⟩
   · dsimp only
     cases hs : (trackEv pre t e).stopped with
     | false => rfl
     | true =>
       simp only [Bool.not_true, Bool.false_or, List.all_eq_true, Bool.not_eq_true']
       exact h1 hs
+  · dsimp only
+    cases hs : (trackEv pre t e).stopped with
+    | false => rfl
+    | true =>
+      obtain ⟨a1, a2⟩ := h3 hs
+      simp [a1, a2]
   · cases e with
+    | send sid topic key msgs =>
+      dsimp only
+      cases h5 : (t.stopped && sid == t.nextSid && !msgs.isEmpty) with
+      | false => rfl
+      | true =>
+        simp only [Bool.and_eq_true, beq_iff_eq, Bool.not_eq_true'] at h5
+        rw [h4 sid topic key msgs rfl h5.1.1 h5.1.2 h5.2]
+        simp
     | stop w pout m =>
       dsimp only
       cases he : effective t (.stop w pout m) with
@@ -255,6 +270,74 @@ structure SInv (cfg : Cfg) (st : St) (t : Track) : Prop where
   ci : CInv cfg st t
   stop : st.stopping = true → StopInv st
   looper : st.looper = true → cfg.everyT.isSome = true
+  /-- once `stop()` has begun nothing is outstanding (hence nothing queued) any more -/
+  empty : st.stopping = true → st.outstanding = []
+
+theorem trackOb_stopped (e : Ev) (r : Bool) (t : Track) (o : Ob) : (trackOb e r t o).stopped = t.stopped := by
+  cases o <;> rfl
+
+theorem foldl_stopped (e : Ev) (r : Bool) (obs : List Ob) (t : Track) : (obs.foldl (trackOb e r) t).stopped = t.stopped := by
+  induction obs generalizing t with
+  | nil => rfl
+  | cons o rest ih => rw [List.foldl_cons, ih, trackOb_stopped]
+
+theorem track_stopped (pre : Snap) (t : Track) (s : Step) : (track pre t s).stopped = (trackEv pre t s.ev).stopped := by
+  have := foldl_stopped s.ev (isRetryStep t s.ev) s.obs (trackEv pre t s.ev)
+  simp only [track]
+  repeat' split
+  all_goals exact this
+
+/-- `stopping` is only ever set by a valid `stop` -/
+theorem step_sets_stopping (cfg : Cfg) (st : St) (e : Ev) (h0 : ¬ st.stopping = true)
+    (hs : (step cfg st e).1.stopping = true) : ∃ w pout m, e = .stop w pout m ∧ stopValid st pout = true := by
+  cases e with
+  | stop w pout m =>
+    by_cases hv : stopValid st pout = true
+    · exact ⟨w, pout, m, rfl, hv⟩
+    · exfalso
+      have : step cfg st (.stop w pout m) = (st, [.badOp]) := by simp [step, hv]
+      rw [this] at hs; exact h0 hs
+  | send sid topic key msgs =>
+    exfalso; apply h0; rw [← hs]; symm
+    simp only [step]; split
+    · rfl
+    · split
+      · rfl
+      · simp only [doSend]; rw [(checkSendBatch_stat cfg _).2.1]; rfl
+  | cancel sid =>
+    exfalso; apply h0; rw [← hs]; symm
+    simp only [step]; split
+    · exact (cancelSend_stat st sid).2.1
+    · rfl
+  | tick =>
+    exfalso; apply h0; rw [← hs]; symm
+    simp only [step]; split
+    · exact (sendBatch_stat cfg st).2.1
+    · rfl
+  | timer tid =>
+    exfalso; apply h0; rw [← hs]; symm
+    simp only [step]; split
+    · exact (timerLookups_stat cfg st _ tid).2.1
+    · split
+      · rfl
+      · exact (zombieTimer_stat st tid).2.1
+    · exact (zombieTimer_stat st tid).2.1
+  | advance dt => exact absurd hs h0
+  | metaSet topic err parts => exact absurd hs h0
+  | metaReset topics => exact absurd hs h0
+  | metaWipe => exact absurd hs h0
+  | metaDone rid res =>
+    exfalso; apply h0; rw [← hs]; symm
+    simp only [step]; split
+    · exact (metaDoneLookups_stat cfg st _ rid res).2.1
+    · rfl
+  | produceDone rid res =>
+    exfalso; apply h0; rw [← hs]; symm
+    simp only [step]; split
+    · split
+      · exact (finish_stat cfg st _ (handleSendResponse_stat cfg st _ res)).2.1
+      · rfl
+    · rfl
 
 theorem sinv_step (cfg : Cfg) (st : St) (t : Track) (e : Ev) (h : SInv cfg st t) :
     SInv cfg (step cfg st e).1 (track (snapOf st) t (mkStep cfg st e)) ∧
@@ -262,60 +345,42 @@ theorem sinv_step (cfg : Cfg) (st : St) (t : Track) (e : Ev) (h : SInv cfg st t)
   obtain ⟨hci', _, _⟩ := cinv_step cfg st t e h.ci
   have hrel := h.ci.ti.fr.rel
   have hstopped := trackEv_stopped (snapOf st) t e
-  -- stopping is only ever set by a valid `stop`
   have hstop' : (step cfg st e).1.stopping = true → StopInv (step cfg st e).1 := by
     intro hs
     by_cases h0 : st.stopping = true
     · exact (stopped_step cfg st e (h.stop h0)).2
-    · cases e with
-      | stop w pout m =>
-        by_cases hv : stopValid st pout = true
-        · exact (stop_establishes cfg st w pout m hv).2
-        · exfalso
-          have : step cfg st (.stop w pout m) = (st, [.badOp]) := by simp [step, hv]
-          rw [this] at hs; exact h0 hs
+    · obtain ⟨w, pout, m, he, hv⟩ := step_sets_stopping cfg st e h0 hs
+      subst he
+      exact (stop_establishes cfg st w pout m hv).2
+  have hemp' : (step cfg st e).1.stopping = true → (step cfg st e).1.outstanding = [] := by
+    intro hs
+    by_cases h0 : st.stopping = true
+    · have ho := h.empty h0
+      have fd := step_fd cfg st e
+      cases e with
       | send sid topic key msgs =>
-        exfalso; apply h0; rw [← hs]; symm
-        simp only [step]; split
-        · rfl
-        · split
-          · rfl
-          · simp only [doSend]; rw [(checkSendBatch_stat cfg _).2.1]; rfl
-      | cancel sid =>
-        exfalso; apply h0; rw [← hs]; symm
-        simp only [step]; split
-        · exact (cancelSend_stat st sid).2.1
-        · rfl
-      | tick =>
-        exfalso; apply h0; rw [← hs]; symm
-        simp only [step]; split
-        · exact (sendBatch_stat cfg st).2.1
-        · rfl
-      | timer tid =>
-        exfalso; apply h0; rw [← hs]; symm
-        simp only [step]; split
-        · exact (timerLookups_stat cfg st _ tid).2.1
-        · split
-          · rfl
-          · exact (zombieTimer_stat st tid).2.1
-        · exact (zombieTimer_stat st tid).2.1
-      | advance dt => exact absurd hs h0
-      | metaSet topic err parts => exact absurd hs h0
-      | metaReset topics => exact absurd hs h0
-      | metaWipe => exact absurd hs h0
-      | metaDone rid res =>
-        exfalso; apply h0; rw [← hs]; symm
-        simp only [step]; split
-        · exact (metaDoneLookups_stat cfg st _ rid res).2.1
-        · rfl
-      | produceDone rid res =>
-        exfalso; apply h0; rw [← hs]; symm
-        simp only [step]; split
-        · split
-          · exact (finish_stat cfg st _ (handleSendResponse_stat cfg st _ res)).2.1
-          · rfl
-        · rfl
-  refine ⟨⟨hci', hstop', fun hl => h.looper (step_looper cfg st e hl)⟩, ?_⟩
+        simp only [step]
+        split
+        · exact ho
+        · simp only [h0, Bool.or_true, if_true]; exact ho
+      | _ =>
+        apply List.eq_nil_iff_forall_not_mem.mpr
+        intro x hx
+        have := fd.sub x hx
+        simp only [outPlus, ho] at this
+        cases this
+    · obtain ⟨w, pout, m, he, hv⟩ := step_sets_stopping cfg st e h0 hs
+      subst he
+      exact (stop_fires_all cfg st w pout m hv h.ci.ti.fr.once.nodup).1
+  have hq' : (step cfg st e).1.stopping = true → (step cfg st e).1.queue = [] := by
+    intro hs
+    have ho := hemp' hs
+    cases hqq : (step cfg st e).1.queue with
+    | nil => rfl
+    | cons r rest =>
+      have := hci'.qo r.sid (by simp [queued, hqq])
+      rw [ho] at this; cases this
+  refine ⟨⟨hci', hstop', fun hl => h.looper (step_looper cfg st e hl), hemp'⟩, ?_⟩
   apply stopStep_of (snapOf st) t e (step cfg st e).2 (snapOf (step cfg st e).1)
   · intro hs o ho
     rw [hstopped] at hs
@@ -346,9 +411,19 @@ theorem sinv_step (cfg : Cfg) (st : St) (t : Track) (e : Ev) (h : SInv cfg st t)
       rw [f1] at this; cases this
     · intro hl
       rw [hstep]; exact doStop_kinds cfg st w pout m hl
+  · intro hs
+    have hs' : (step cfg st e).1.stopping = true := by
+      rw [← hci'.ti.fr.rel.stopped, track_stopped]; exact hs
+    exact ⟨hemp' hs', by simp only [snapOf, hq' hs', List.map_nil]⟩
+  · intro sid topic key msgs he h1 h2 h3
+    subst he
+    have hs : st.stopping = true := by rw [← hrel.stopped]; exact h1
+    have hn : sid = st.nextSid := by rw [h2]; exact h.ci.ti.si.ns
+    show (step cfg st (.send sid topic key msgs)).2 = _
+    simp [step, hn, hs, h3]
 
 theorem sinv_init (cfg : Cfg) : SInv cfg (St.init cfg) {} := by
-  refine ⟨cinv_init cfg, fun h => by simp [St.init] at h, ?_⟩
+  refine ⟨cinv_init cfg, fun h => by simp [St.init] at h, ?_, fun h => by simp [St.init] at h⟩
   intro h
   simp only [St.init] at h
   cases hc : cfg.everyT with
